@@ -74,7 +74,7 @@ func main() {
 	for _, n := range names {
 		files = append(files, pkg.Files[n])
 	}
-	info := &types.Info{Types: map[ast.Expr]types.TypeAndValue{}}
+	info := &types.Info{Types: map[ast.Expr]types.TypeAndValue{}, Uses: map[*ast.Ident]types.Object{}}
 	var typeErrs []string
 	conf := types.Config{Importer: importer.ForCompiler(fset, "source", nil), Error: func(err error) { typeErrs = append(typeErrs, err.Error()) }}
 	if err := os.Chdir(dir); err != nil {
@@ -86,8 +86,9 @@ func main() {
 		// and let the build step produce the authoritative error.
 		fmt.Println("type errors (build will report them):", strings.Join(typeErrs, "; "))
 	}
-	site, maps := 0, 0
+	site, maps, clocks := 0, 0, 0
 	var table []string
+	timeFiles := map[string]bool{}
 	for i, f := range files {
 		name := names[i]
 		src, err := os.ReadFile(name)
@@ -128,6 +129,23 @@ func main() {
 					addStmts(n.Body)
 				case *ast.CommClause:
 					addStmts(n.Body)
+				case *ast.SelectorExpr:
+					// (c) the wall clock: time.Now / time.Since / time.Until
+					// read the simulator's clock
+					id, ok := n.X.(*ast.Ident)
+					if !ok {
+						break
+					}
+					pn, ok := info.Uses[id].(*types.PkgName)
+					if !ok || pn.Imported().Path() != "time" {
+						break
+					}
+					switch n.Sel.Name {
+					case "Now", "Since", "Until":
+						clocks++
+						timeFiles[name] = true
+						edits = append(edits, edit{off(n.Pos()), off(n.End()), "verifsim." + n.Sel.Name})
+					}
 				case *ast.RangeStmt:
 					tv, ok := info.Types[n.X]
 					if !ok {
@@ -171,7 +189,14 @@ func main() {
 		if len(edits) == 0 {
 			continue
 		}
+		keep := ""
+		if timeFiles[name] {
+			keep = "\nvar _ = time.Nanosecond // (keeps the import used once the clock reads are rerouted)\n"
+		}
 		edits = append(edits, edit{off(f.Name.End()), off(f.Name.End()), "\nimport \"github.com/veraison/go-cose/verifsim\"\n"})
+		if keep != "" {
+			edits = append(edits, edit{len(src), len(src), keep})
+		}
 		sort.SliceStable(edits, func(a, b int) bool {
 			if edits[a].off != edits[b].off {
 				return edits[a].off > edits[b].off
@@ -197,7 +222,7 @@ func main() {
 	if err := os.WriteFile(filepath.Join("verifsim", "sites_gen.go"), []byte(tb.String()), 0o644); err != nil {
 		die(err)
 	}
-	fmt.Printf("sites: %d map ranges: %d\n", site, maps)
+	fmt.Printf("sites: %d map ranges: %d clock reads: %d\n", site, maps, clocks)
 }
 
 func typeName(e ast.Expr) string {
